@@ -5,6 +5,7 @@ ID = "C06"
 STAGES = [
     Stage("smoother", "p06_smoother", "plain", {"quick": 200, "thorough": 20000}, timeout_per_case=120),
     Stage("smoother-asan", "p06_smoother", "asan", {"quick": 32, "thorough": 800}, offset=1000000, timeout_per_case=300),
+    Stage("smoother-thread-limit", "p06_smoother", "plain", {"quick": 60, "thorough": 2000}, offset=2000000, timeout_per_case=120, env={"OMP_THREAD_LIMIT": "2"}),
 ]
 THRESHOLDS = {
     "fixed_point_residual": 1e-11,   # residual of S(x*) per row / (rowsum*||x|| + |f|) / max(1, 1e-3 Rmax/R0)
